@@ -89,7 +89,10 @@ def generate(rng, tier, index):
             toks.append([rng.choice(WORDS + ["oov1"]), t, t + dur] if rng.random() < 0.8 else [rng.choice(WORDS), None, None])
             t += dur + rng.choice([0, 7, 100])
         sc["toks"] = toks
-        sc["fs"] = rng.choice([None, 10.0, 20.0, 12.5, 1000.0 / 16])
+        sc["fs"] = rng.choice([None, 10.0, 20.0, 12.5, 1000.0 / 16, 16.0, 15.0, 7.5, 30.0])  # also shifts that do not divide one second
+        if rng.random() < 0.3:
+            toks = [[a, (b + 20000 if b is not None else None), (c + 20000 if c is not None else None)] for a, b, c in toks]  # late in a long recording
+            sc["toks"] = toks
         sc["unk"] = rng.choice([None, "<unk>", 99])
         sc["skip"] = rng.random() < 0.25
         sc["use_map"] = rng.random() < 0.8
